@@ -295,27 +295,30 @@ impl RtpsWriterProxy {
         reader_guid: &Guid,
         message_writer: &(impl WriteMessage + ?Sized),
     ) {
-        if self.must_send_acknacks() || !self.missing_changes().count() == 0 {
+        if self.must_send_acknacks() || self.missing_changes().next().is_some() {
             self.set_must_send_acknacks(false);
             self.increment_acknack_count();
 
             let info_dst_submessage =
                 InfoDestinationSubmessage::new(self.remote_writer_guid().prefix());
 
-            // We report missing changes up to the one where we have received at least one fragment
-            let missing_changes = self.missing_changes().take(256).take_while(|x| {
-                x < &self
-                    .frag_buffer
-                    .iter()
-                    .map(|x| x.writer_sn())
-                    .min()
-                    .unwrap_or(i64::MAX)
+            // We report missing changes up to the one where we have received at least one fragment.
+            // A sequence number set can describe at most 256 consecutive numbers from its base
+            let acknack_base = self.available_changes_max() + 1;
+            let missing_changes = self.missing_changes().take_while(|x| {
+                x - acknack_base < 256
+                    && x < &self
+                        .frag_buffer
+                        .iter()
+                        .map(|x| x.writer_sn())
+                        .min()
+                        .unwrap_or(i64::MAX)
             });
             let acknack_submessage = AckNackSubmessage::new(
                 true,
                 reader_guid.entity_id(),
                 self.remote_writer_guid().entity_id(),
-                SequenceNumberSet::new(self.available_changes_max() + 1, missing_changes),
+                SequenceNumberSet::new(acknack_base, missing_changes),
                 self.acknack_count(),
             );
 
@@ -388,6 +391,6 @@ impl RtpsWriterProxy {
 
     pub fn is_historical_data_received(&self) -> bool {
         let at_least_one_heartbeat_received = self.last_received_heartbeat_count > 0;
-        at_least_one_heartbeat_received && self.missing_changes().count() == 0
+        at_least_one_heartbeat_received && self.missing_changes().next().is_none()
     }
 }
